@@ -231,7 +231,33 @@ type opStamp struct {
 }
 
 // runScript executes one script; returns the transcript and per-op timestamps. No locks, channels or shared writes.
+// lineUp, when set, is called by a script after its first operation: in every second round all goroutines wait for each
+// other there, so that what comes next — the first evaluation of everything the assets build lazily — is begun by all of
+// them at the same moment. (It orders the first operations before the second ones; the other rounds run without it.)
+type lineUp struct {
+	n     int32
+	count int32
+	ch    chan struct{}
+}
+
+func (l *lineUp) wait() {
+	if l == nil {
+		return
+	}
+	if atomic.AddInt32(&l.count, 1) == l.n {
+		close(l.ch)
+	}
+	select {
+	case <-l.ch:
+	case <-time.After(20 * time.Second): // a goroutine that panicked in its first operation never arrives
+	}
+}
+
 func runScript(sh *c09shared, sc *c09script, g int) (transcript []string, stamps []opStamp, panicked string) {
+	return runScriptL(sh, sc, g, nil)
+}
+
+func runScriptL(sh *c09shared, sc *c09script, g int, lu *lineUp) (transcript []string, stamps []opStamp, panicked string) {
 	defer func() {
 		if r := recover(); r != nil {
 			panicked = fmt.Sprint(r) + "\n" + fw.TrimStack(string(debug.Stack()))
@@ -396,6 +422,9 @@ func runScript(sh *c09shared, sc *c09script, g int) (transcript []string, stamps
 		}
 		st.end = time.Now().UnixNano()
 		stamps = append(stamps, st)
+		if len(stamps) == 1 {
+			lu.wait()
+		}
 	}
 	return
 }
@@ -462,6 +491,7 @@ type c09roundResult struct {
 	Scripts      []map[string]any `json:"scripts,omitempty"`
 	Planted      string           `json:"planted,omitempty"`
 	ColdLoad     *coldLoadResult  `json:"cold_load,omitempty"`
+	LinedUp      bool             `json:"lined_up,omitempty"`
 }
 
 // c09child: vcheck-race c09child <seed> <child-index> <rounds> <maxN> <jitter 0|1> <out.json>
@@ -500,6 +530,29 @@ func c09child(args []string) int {
 			wh := gen.M{"type": "call_webhook", "uuid": gen.UUID4(r), "method": "GET", "url": "http://localhost/?cmd=" + fw.Pick(r, []string{"true", "false", "true", "array", "flags", "number", "null", "string"}), "result_name": "webhook"}
 			nd["actions"] = append([]any{wh}, acts...)
 			rr.Planted = "bare-json-webhook"
+		} else if f0["type"] != "messaging_offline" && len(f0["nodes"].([]any)) > 0 && r.Chance(0.3) {
+			// … or with a broadcast / session start whose fixed recipient lists (of every small length) are extended by
+			// recipients that differ from session to session
+			nd := f0["nodes"].([]any)[0].(gen.M)
+			acts, _ := nd["actions"].([]any)
+			nu, nc := r.Range(0, 7), r.Range(0, 7)
+			var us []string
+			for i := 0; i < nu; i++ {
+				us = append(us, fmt.Sprintf("tel:+1206555%04d", 100+i))
+			}
+			var cs []gen.M
+			for i := 0; i < nc; i++ {
+				cs = append(cs, gen.M{"uuid": gen.UUID4(r), "name": fmt.Sprint("Fixed ", i)})
+			}
+			a := gen.M{"type": fw.Pick(r, []string{"send_broadcast", "start_session"}), "uuid": gen.UUID4(r), "urns": us, "contacts": cs, "legacy_vars": []string{"@contact.uuid", "@(\"tel:+1\" & text(contact.id + 2065550000))"}}
+			if a["type"] == "send_broadcast" {
+				a["text"] = "to all"
+			} else {
+				a["flow"] = gen.M{"uuid": f0["uuid"], "name": f0["name"]}
+				a["exclusions"] = gen.M{}
+			}
+			nd["actions"] = append([]any{a}, acts...)
+			rr.Planted = "recipient-lists"
 		}
 		n := []int{2, 3, 4, 8, 16, 32}[r.Intn(6)]
 		if n > maxN {
@@ -550,13 +603,18 @@ func c09child(args []string) int {
 		start := make(chan struct{})
 		ready.Add(n)
 		done.Add(n)
+		var lu *lineUp
+		if round%2 == 0 {
+			lu = &lineUp{n: int32(n), ch: make(chan struct{})}
+			rr.LinedUp = true
+		}
 		for g := 0; g < n; g++ {
 			go func(g int) {
 				defer done.Done()
 				bindSlot(g+1, uint64(seed)^uint64(g+1)*0x9E3779B97F4A7C15, jitter)
 				ready.Done()
 				<-start // barrier: everything after this line is the measured region
-				transcripts[g], stamps[g], panics[g] = runScript(sh, &scripts[g], g)
+				transcripts[g], stamps[g], panics[g] = runScriptL(sh, &scripts[g], g, lu)
 			}(g)
 		}
 		ready.Wait()
@@ -709,7 +767,7 @@ func (p *c09) RunCustom(o *fw.Orchestrator) {
 	raceReports := 0
 	ops := map[string]int{}
 	interleavings := map[string]bool{}
-	var nRounds, nGoroutinesMax, overlapRounds, coldCollisions, discarded, panicsSeen, planted, coldRounds, coldFlows, coldDistinct, coldReread int
+	var nRounds, nGoroutinesMax, overlapRounds, coldCollisions, discarded, panicsSeen, planted, linedUp, coldRounds, coldFlows, coldDistinct, coldReread int
 	var coldDraws int64
 	panicKinds := map[string]bool{}
 	procsSeen := map[int]bool{}
@@ -784,6 +842,9 @@ func (p *c09) RunCustom(o *fw.Orchestrator) {
 				if rr.Planted != "" {
 					planted++
 				}
+				if rr.LinedUp {
+					linedUp++
+				}
 				if rr.ColdCollide {
 					coldCollisions++
 				}
@@ -841,6 +902,7 @@ func (p *c09) RunCustom(o *fw.Orchestrator) {
 	}
 	o.Sum.Counters["rounds"] = int64(nRounds)
 	o.Sum.Counters["rounds_with_planted_bare_json_webhook"] = int64(planted)
+	o.Sum.Counters["rounds_lined_up_after_first_operation"] = int64(linedUp)
 	o.Sum.Counters["clause.cold_load_rounds"] = int64(coldRounds)
 	o.Sum.Counters["cold_load.flows_loaded_concurrently"] = int64(coldFlows)
 	o.Sum.Counters["cold_load.uuid_draws"] = coldDraws
